@@ -215,6 +215,32 @@ fn run(ctx: &mut Ctx) {
             });
         }
     }
+    // ---------------- (b1) decoys: a tag whose type differs from the kind's number only in high bits must not be selected
+    ctx.bound("decoys", "per kind K: a tag with K's body but type K+0x100, K+0x10000, K+0x01000000 or K|0x80000000 placed before (and after) the real tag: the getter selects the real one; with only the decoy present it returns nothing");
+    for kind in 0..=21u32 {
+        for (di, d) in [0x100u32, 0x1_0000, 0x0100_0000, 0x8000_0000].into_iter().enumerate() {
+            for arrangement in 0..3 {
+                let real = bi::sample(kind, 1, 1);
+                let mut decoy = bi::sample(kind, 2, 2);
+                wr32(&mut decoy, 0, kind | d);
+                let mut tags = match arrangement {
+                    0 => vec![decoy, real],
+                    1 => vec![real, decoy],
+                    _ => vec![decoy],
+                };
+                tags.push(bi::end_tag());
+                let region = bi::region(&tags, &bi::marker_pad);
+                let describe = || J::obj().set("part", "decoys").set("kind", bi::kind_name(kind)).set("decoy_type", format!("{:#x}", kind | d)).set("arrangement", ["decoy, real", "real, decoy", "decoy only"][arrangement]).set("region", J::hex(&region[..region.len().min(96)]));
+                let _ = di;
+                ctx.leaf(describe, |ctx| {
+                    ctx.state(hash::hash_bytes(&region));
+                    ctx.nontrivial();
+                    let want = expected_for(&region, kind);
+                    check_getter(ctx, &arena, &region, kind, want, "decoys");
+                });
+            }
+        }
+    }
     // ---------------- (b2) many tags: every kind present, in every rotation, surrounded by repeated custom tags
     ctx.bound("many_tags", "regions holding all 21 non-end kinds (EfiBs left out in half of them) in each of the 21 rotations, each kind followed by a custom tag, the whole sequence followed by a second instance of every kind: 60+ tags per region; all 22 getters");
     for rot in 0..21usize {
@@ -304,6 +330,41 @@ fn run(ctx: &mut Ctx) {
                 ctx.nontrivial();
                 check_getter(ctx, &arena, &region, bi::FRAMEBUFFER, Some(8), "framebuffer_type_pairs");
             });
+        }
+    }
+    // ---------------- (e2) RSDP validity depends on the byte sum only: every byte of the summed range at every
+    // value, with the checksum byte compensating (sum stays 0 -> valid) and over-compensating (sum 1 -> invalid)
+    ctx.bound("rsdp_compensated", "RSDPv1 (20 summed bytes) and RSDPv2 (36 summed bytes): every byte position of the summed range x all 256 values, the (extended) checksum byte adjusted so that the sum is 0 (must be valid) or 1 (must be invalid); for RSDPv2 additionally with the first-20-bytes sum made invalid");
+    for (kind, n, csum_at) in [(bi::ACPI1, 20usize, 16usize), (bi::ACPI2, 36, 40)] {
+        for pos in 8..8 + n {
+            if pos == csum_at {
+                continue;
+            }
+            for v in 0..=255u8 {
+                for target in [0u8, 1] {
+                    let mut t = bi::sample(kind, 4, 0);
+                    if kind == bi::ACPI2 && (28..32).contains(&pos) {
+                        continue; // the length field stays 36
+                    }
+                    t[pos] = v;
+                    if kind == bi::ACPI2 {
+                        // spoil the ACPI 1.0 sum (first 20 bytes) unless this position is its checksum byte
+                        if pos != 16 {
+                            t[16] = t[16].wrapping_add(0x5B);
+                        }
+                    }
+                    t[csum_at] = 0;
+                    let s: u8 = t[8..8 + n].iter().fold(0u8, |a, b| a.wrapping_add(*b));
+                    t[csum_at] = target.wrapping_sub(s);
+                    let region = bi::region(&[t, bi::end_tag()], &bi::marker_pad);
+                    let describe = || J::obj().set("part", "rsdp_compensated").set("kind", bi::kind_name(kind)).set("byte", pos).set("value", v).set("sum", target).set("region", J::hex(&region));
+                    ctx.leaf(describe, |ctx| {
+                        ctx.state(hash::hash_bytes(&region));
+                        ctx.nontrivial();
+                        check_getter(ctx, &arena, &region, kind, Some(8), "rsdp_compensated");
+                    });
+                }
+            }
         }
     }
     // ---------------- (f) counts around 8- and 16-bit boundaries
